@@ -166,7 +166,10 @@ Next ==
             /\ st' = t /\ last' = NoLast
        ELSE LET t == StOf(st.kind, ev.obs, st.dueAll) IN
             /\ Report(ev, Failed(EvChecks(ev, t)))
-            /\ st' = t
+            \* resynchronise on the observation, except for the configured fees, which the specification owns: the triple
+            \* in force is the one the last accepted update set
+            /\ st' = [t EXCEPT !.fees = IF ev.ev = "setfees" /\ ev.res = "ok"
+                                        THEN [p |-> ev.args.p, f |-> ev.args.f, b |-> ev.args.b] ELSE st.fees]
             /\ last' = IF ev.ev = "deposit" /\ ev.res = "ok"
                        THEN [ev |-> "deposit", actor |-> ev.actor, amt |-> ev.args.amt,
                              minted |-> ev.out.minted, preS |-> st.S, preBal |-> st.bal]
